@@ -151,3 +151,87 @@ theorem run_append (m : OrdMap) (a b : List (Op × Bool)) :
   | cons x a ih => obtain ⟨op, r⟩ := x; simp only [List.cons_append, run]; exact ih _
 
 end CC.Spec.OrdMap
+
+/-! ### what an ideal iteration hands out -/
+namespace CC.Spec.OrdMap
+open CC CC.Spec
+variable {cmp : Nat → Nat → Int}
+
+/-- state of an ideal iteration over the original map `m0`: the current map only lost entries, every
+key still to be visited is present, the key yielded last is not among them -/
+structure CursorOk (m0 : OrdMap) (c : Cursor) (f : OrdMap) : Prop where
+  sub   : f.Sublist m0
+  todo  : ∀ k ∈ c.todo, contains f k = true
+  nodup : c.todo.Nodup
+  last  : ∀ k, c.last = some k → k ∉ c.todo
+
+theorem lookup_mem {f : OrdMap} {k v : Nat} (h : lookup f k = some v) : (k, v) ∈ f := by
+  simp only [lookup, Option.map_eq_some_iff] at h
+  obtain ⟨x, hx, hv⟩ := h
+  have hm := List.mem_of_find?_eq_some hx
+  have hk : x.1 = k := by simpa using List.find?_some hx
+  rw [← hk, ← hv]; exact hm
+
+theorem contains_erase_ne {f : OrdMap} {k k' : Nat} (hne : k' ≠ k) (h : contains f k' = true) :
+    contains (erase f k) k' = true := by
+  simp only [contains, erase, List.any_eq_true, List.mem_filter] at h ⊢
+  obtain ⟨x, hx, hxk⟩ := h
+  refine ⟨x, ⟨hx, ?_⟩, hxk⟩
+  have : x.1 = k' := by simpa using hxk
+  simp [this, hne]
+
+theorem cursorOk_init (ho : TotalOrder cmp) {m : OrdMap} (hs : Sorted cmp m) : CursorOk m (Cursor.init m) m := by
+  refine ⟨List.Sublist.refl m, ?_, ?_, fun k hk => by simp [Cursor.init] at hk⟩
+  · intro k hk; simpa [contains, keys, Cursor.init] using hk
+  · have : (keys m).Pairwise (fun a b => cmp a b < 0) := keys_ascending hs
+    exact this.imp (fun h => ho.ne_of_lt h)
+
+/-- one step keeps `CursorOk`, and a successful `next` hands out an entry of the original map with
+its real value (the default of `getD` is never used) -/
+theorem cursorOk_step {m0 : OrdMap} {c : Cursor} {f : OrdMap} (h : CursorOk m0 c f) (op : IterOp) :
+    CursorOk m0 (c.step f op).2.1 (c.step f op).2.2 ∧
+    (op = .next → ∀ k, (c.step f op).1.val = some k → ∃ v, (k, v) ∈ m0 ∧ (c.step f op).1.log = [v]) := by
+  cases op with
+  | next =>
+    simp only [Cursor.step, Cursor.next]
+    cases hc : c.todo with
+    | nil => exact ⟨by simpa [hc] using h, fun _ k hk => by simp at hk⟩
+    | cons k rest =>
+      have hk := h.todo k (by rw [hc]; simp)
+      have hnd := h.nodup; rw [hc] at hnd
+      obtain ⟨v, hv⟩ : ∃ v, lookup f k = some v := by
+        have := contains_iff_lookup f k; rw [hk] at this
+        cases hl : lookup f k with
+        | none => rw [hl] at this; simp at this
+        | some v => exact ⟨v, rfl⟩
+      refine ⟨⟨h.sub, fun k' hk' => h.todo k' (by rw [hc]; simp [hk']), (List.nodup_cons.1 hnd).2, ?_⟩, ?_⟩
+      · intro k' hk'; simp only [Option.some.injEq] at hk'; subst hk'; exact (List.nodup_cons.1 hnd).1
+      · intro _ k' hk'
+        simp only [Option.map_some, Option.some.injEq] at hk'; subst hk'
+        exact ⟨v, h.sub.subset (lookup_mem hv), by simp [hv]⟩
+  | remove =>
+    refine ⟨?_, fun x => by simp at x⟩
+    simp only [Cursor.step, Cursor.remove]
+    cases hl : c.last with
+    | none => exact h
+    | some k =>
+      refine ⟨(List.filter_sublist).trans h.sub, ?_, h.nodup, fun k' hk' => by simp at hk'⟩
+      intro k' hk'
+      exact contains_erase_ne (fun e => h.last k hl (e ▸ hk')) (h.todo k' hk')
+
+/-- **every entry an ideal iteration hands out is an entry of the original map, with its real value**,
+whatever the program removes in between -/
+theorem cursor_run_yields {m0 : OrdMap} {c : Cursor} {f : OrdMap} (h : CursorOk m0 c f) (prog : List IterOp) :
+    ∀ p ∈ prog.zip (c.run f prog).1, p.1 = .next → ∀ k, p.2.val = some k →
+      ∃ v, (k, v) ∈ m0 ∧ p.2.log = [v] := by
+  induction prog generalizing c f with
+  | nil => intro p hp; simp [Cursor.run] at hp
+  | cons op rest ih =>
+    obtain ⟨h1, h2⟩ := cursorOk_step h op
+    intro p hp
+    simp only [Cursor.run, List.zip_cons_cons, List.mem_cons] at hp
+    rcases hp with rfl | hp
+    · exact fun hn => h2 hn
+    · exact ih h1 p hp
+
+end CC.Spec.OrdMap
